@@ -426,7 +426,7 @@ func list.PushFrontList
 func list.ForEach
   instantiate T: int
   opt only-ghost-asserts
-  requires l != nil && callback != nil
+  requires l != nil
   callback callback(v) (err)
   modifies everything
   ghost local failed Bool
@@ -444,7 +444,7 @@ func list.ForEach
 func list.ForEachReverse
   instantiate T: int
   opt only-ghost-asserts
-  requires l != nil && callback != nil
+  requires l != nil
   callback callback(v) (err)
   modifies everything
   ghost local failed Bool
